@@ -99,6 +99,22 @@ def impl_meta(case):
                 unk_known = mi[0] == 10 and mi[1] in sc.KNOWN_TYPE_BYTES      # outside the round-trip domain
                 if not unk_known:
                     fail = ('smpte_offset.hours>=32' if hours else 'from_bytes-raises:' + key, 'from_bytes(bytes()) of %r raised %r' % (m, e))
+        if fail is None and len(bs) < 5000 and not (mi[0] == 10 and mi[1] in sc.KNOWN_TYPE_BYTES) and not (mi[0] == 6 and mi[2] >= 32):
+            # ... or reading them from a track: with the reader's options too (clip only concerns the data bytes of channel messages)
+            import io
+            import mido
+            ev = bytes([5]) + bytes(bs) + bytes([0, 0xFF, 0x2F, 0])
+            data = b'MThd' + (6).to_bytes(4, 'big') + b'\x00\x01\x00\x01\x01\xe0' + b'MTrk' + len(ev).to_bytes(4, 'big') + ev
+            for clip in (False, True):
+                try:
+                    mf = mido.MidiFile(file=io.BytesIO(data), charset=sc.CHARSETS[cs], clip=clip)
+                    got = mf.tracks[0][0]
+                    if sc.meta_ints(got) != sc.meta_ints(m) or got.time != 5:
+                        fail = ('track-read-differs:' + key, 'the bytes of %r read from a track (clip=%r) give %r' % (m, clip, got))
+                except Exception as e:  # noqa: BLE001
+                    fail = ('track-read-raises:' + key, 'the bytes of %r read from a track (clip=%r) raised %r' % (m, clip, e))
+                if fail is not None:
+                    break
     return out, fail, 'meta%d' % mi[0]
 
 
